@@ -191,3 +191,90 @@ func apiArg(a []luaref.Value, i int) luaref.Value {
 	}
 	return nil
 }
+
+// c10NextUnderRemoval: LState.Next / LTable.Next / LTable.ForEach-free traversals through the Go API
+// while the list part shrinks behind the cursor: tables with n list items and three hash keys; when
+// the traversal stands on list key s, the last r items are removed with LTable.Remove (what
+// table.remove does). The traversal must not fail, must visit every surviving key exactly once
+// and a removed key at most once (never after its removal).
+func c10NextUnderRemoval(r *harness.Run) {
+	n := 0
+	for size := 1; size <= 6; size++ {
+		for at := 1; at <= size; at++ {
+			for rem := 1; rem <= 3 && rem <= size; rem++ {
+				for _, api := range []string{"L.Next", "tb.Next"} {
+					n++
+					L := lua.NewState()
+					tb := L.NewTable()
+					for i := 1; i <= size; i++ {
+						tb.Append(lua.LNumber(i * 10))
+					}
+					tb.RawSetString("x", lua.LString("vx"))
+					tb.RawSetString("y", lua.LString("vy"))
+					tb.RawSet(lua.LTrue, lua.LString("vt"))
+					visits := map[string]int{}
+					removedAt := map[string]bool{}
+					problem := ""
+					func() {
+						defer func() {
+							if rec := recover(); rec != nil {
+								problem = fmt.Sprintf("the traversal failed: %v", rec)
+							}
+						}()
+						var k lua.LValue = lua.LNil
+						for steps := 0; steps < 50; steps++ {
+							var v lua.LValue
+							if api == "L.Next" {
+								k, v = L.Next(tb, k)
+							} else {
+								k, v = tb.Next(k)
+							}
+							if k == lua.LNil {
+								return
+							}
+							name := k.String()
+							visits[name]++
+							if removedAt[name] {
+								problem = "key " + name + " was visited after it had been removed"
+								return
+							}
+							_ = v
+							if k == lua.LNumber(at) {
+								for j := 0; j < rem; j++ {
+									removedAt[fmt.Sprint(tb.Len())] = true
+									tb.Remove(-1)
+								}
+							}
+						}
+						problem = "the traversal does not end"
+					}()
+					if problem == "" {
+						for i := 1; i <= size; i++ {
+							name := fmt.Sprint(i)
+							switch {
+							case !removedAt[name] && visits[name] != 1:
+								problem = fmt.Sprintf("surviving key %s visited %d times", name, visits[name])
+							case removedAt[name] && visits[name] > 1:
+								problem = fmt.Sprintf("removed key %s visited %d times", name, visits[name])
+							}
+						}
+						for _, name := range []string{"x", "y", "true"} {
+							if visits[name] != 1 {
+								problem = fmt.Sprintf("hash key %s visited %d times", name, visits[name])
+							}
+						}
+					}
+					L.Close()
+					sig := fmt.Sprintf("next-under-removal/%s/remove=%d", api, rem)
+					r.Eval(fmt.Sprintf("%s/size=%d/at=%d", sig, size, at), true, func() interface{} {
+						return map[string]interface{}{"case": "traversal while the list shrinks", "api": api, "list_items": size, "standing_on": at, "removed": rem}
+					})
+					if problem != "" {
+						r.Violation(sig, fmt.Sprintf("%s over a table with %d list items and 3 hash keys, removing the last %d items while standing on key %d: %s", api, size, rem, at, problem), map[string]interface{}{"api": api, "size": size, "at": at, "removed": rem})
+					}
+				}
+			}
+		}
+	}
+	r.Count("next_under_removal_cases", int64(n))
+}
